@@ -36,6 +36,12 @@ fn one_mask<CS: BbsCiphersuite>(
     let cj = || json!({"case": c, "mask": label, "disclosed": idx});
     // `None` for an empty index list is the other documented spelling
     let idx_arg: Option<&[usize]> = if idx.is_empty() && c.mask_seed % 2 == 0 { None } else { Some(idx) };
+    // a call the library refuses right before generation / right before verification, for half of the masks
+    // (what an error path leaves behind on the thread must not reach the next honest call)
+    let interject = (c.mask_seed as usize + idx.len()) % 4;
+    if interject == 0 {
+        rep.class(&format!("refused-call-before-proof-gen:{}", crate::history::refused_call::<CS>(c.mask_seed as u64 + idx.len() as u64 * 3)));
+    }
     let proof = match PoKSignature::<BBSplus<CS>>::proof_gen(pk, sig, header, ph, Some(msgs), idx_arg) {
         Ok(p) => p,
         Err(e) => return rep.fail(ck, "proof-gen-failed", format!("proof_gen: {:?}", e), cj()),
@@ -43,6 +49,18 @@ fn one_mask<CS: BbsCiphersuite>(
     let disclosed: Vec<Vec<u8>> = idx.iter().map(|&i| msgs[i].clone()).collect();
     let dm_arg: Option<&[Vec<u8>]> = if disclosed.is_empty() && c.mask_seed % 3 == 0 { None } else { Some(&disclosed) };
     rep.eval(ck, 1);
+    if interject == 1 {
+        rep.class(&format!("refused-call-before-proof-verify:{}", crate::history::refused_call::<CS>(c.mask_seed as u64 + idx.len() as u64 * 5)));
+        // ... and this proof itself, with a position beyond the vector and with one message too few
+        let mut far = idx.to_vec();
+        far.push(l + 2);
+        let mut more = disclosed.clone();
+        more.push(b"x".to_vec());
+        let _ = proof.proof_verify(pk, Some(&more), Some(&far), header, ph);
+        if !idx.is_empty() {
+            let _ = proof.proof_verify(pk, Some(&disclosed[1..]), Some(idx), header, ph);
+        }
+    }
     if let Err(e) = proof.proof_verify(pk, dm_arg, idx_arg, header, ph) {
         return rep.fail(ck, "proof-verify-failed", format!("proof_verify of a fresh proof: {:?}", e), cj());
     }
@@ -291,7 +309,7 @@ pub fn run(ctx: &Ctx, rep: &Report) -> Meta {
     Meta {
         rule: "honest signature x header x ph x disclosure mask: ALL 2^L masks for L = 0..=6 (quick) / 0..=10 (thorough) under both suites and three header/ph classes, \
                plus class-sampled masks (none, all, first, last, all-but-last, evens, only-22, all-but-22, random half/sparse/dense) for L in {7..257, 1000}; \
-               every L in 7..=72 (quick) / 7..=200 (thorough) with the class masks, the fixed cases under contention, the same proof object verified again after being refused under another key and header, verification repeated on a freshly started thread, half of the cases after a warm-up history, four long-lived threads with 40 (quick) / 300 (thorough) cases each in sequence (each with its class-sampled masks); oracle: proof_gen Ok, proof_verify Ok with exactly msgs|D (also when the verifier spells an empty header / presentation header the other way, None <-> Some(empty)), equal object and Ok after from_bytes(to_bytes()) and (L <= 40) after serde_json, length = 272 + 32*U; production randomness path; \
+               every L in 7..=72 (quick) / 7..=200 (thorough) with the class masks, the fixed cases under contention, the same proof object verified again after being refused under another key and header, verification repeated on a freshly started thread, for half of the masks a call the library refuses (17 kinds: key generation with short key material / long tags, garbage octets into the decoders, a commitment of 0xc0 octets into blind_sign, verification / proof generation / update with other headers, positions out of range, lists too short, a tag of 256 octets into hash_to_scalar) right before proof_gen or right before proof_verify (then also this proof with a position beyond the vector and with a message too few), half of the cases after a warm-up history, four long-lived threads with 40 (quick) / 300 (thorough) cases each in sequence (each with its class-sampled masks); oracle: proof_gen Ok, proof_verify Ok with exactly msgs|D (also when the verifier spells an empty header / presentation header the other way, None <-> Some(empty)), equal object and Ok after from_bytes(to_bytes()) and (L <= 40) after serde_json, length = 272 + 32*U; production randomness path; \
                non-trivial = (L, mask) outside the three fixture disclosure sets; evaluations = proof verifications + decode checks"
             .into(),
         assumptions: vec!["index lists handed to the library are ascending and duplicate-free (documented precondition)".into()],
